@@ -13,3 +13,12 @@ impl vstd::std_specs::cmp::PartialEqSpecImpl for Infix {
 // make_query's call sites, so `built_by_make_query(q)` can be proved of a value only by obtaining it
 // from make_query.
 pub uninterp spec fn built_by_make_query(g: Goal) -> bool;
+
+// make_logic_var: the variable named as written (trimmed), id 0
+pub open spec fn var_as_written(r: Result<Unifiable, String>, text: Seq<char>) -> bool {
+    match r {
+        Ok(Unifiable::LogicVar{id, name}) => id == 0 && name@ == trimmed(text),
+        Ok(_) => false,
+        Err(_) => true,
+    }
+}
